@@ -134,7 +134,39 @@ def run(ck):
         ck.ob("C05-R1", "%s/content-length-on-every-sending-path" % name, not unframed, unframed[0].loc if unframed else f0.loc, f0,
               "asyncWrite is reached only after writeHeader<ContentLength>" if not unframed else
               "asyncWrite at line %s can be reached on a path that wrote no Content-Length: the receiver cannot tell where the body ends" % unframed[0].get("l"))
-        # failure discipline: each write W is followed by the `!os` test
+        # failure discipline: each write W is followed by the `!os` test -- or, alternatively, lies before a *final gate*: a test of a
+        # stream over the same response buffer, made after a non-empty write that follows every other write, whose failing arm rejects
+        # without sending and which dominates the asyncWrite.  That is enough because the buffer, once it has refused a byte, is full and
+        # stays full (C05-R4: overflow() refuses at maxSize_, nothing shrinks the buffer before it is sent), so the write in front of the
+        # gate fails whenever an earlier one did
+        gate = None
+        dom0 = cfg.dominators(f0)
+        streams0 = {d_["var"] for d_ in f0.events("decl") if "ostream" in (d_.get("type") or "")}
+        aws0 = [x for x in f0.events("call") if comp_of(x) == "asyncWrite"]
+        for gb in f0.blocks.values():
+            t_ = gb.term or {}
+            if t_.get("k") != "if" or t_.get("cmp") or not t_.get("neg") or (t_.get("core") or {}).get("v") not in streams0 or len(gb.succs) != 2 or gb.succs[0] is None:
+                continue
+            sv_ = t_["core"]["v"]
+            fail_ = gb.succs[0]
+            rej_ = not [x for x in cfg.exits_without(f0, must_reject, start_block=fail_) if x.kind != "throw"]
+            sends_ = any(comp_of(x) == "asyncWrite" for x in cfg.events_from_block(f0, fail_))
+            doms_ = bool(aws0) and all(gb.id in dom0.get(a_.block, ()) or gb.id == a_.block for a_ in aws0)
+            # a non-empty write on that very stream in front of the gate, with no other component written between it and the gate
+            last_w = [x for x in f0.events("call") if comp_of(x) in ("crlf", "content-length", "body") and
+                      ((x.get("args") or [{}])[0].get("v") == sv_ or (x.get("recv") or {}).get("v") == sv_ or sv_ in (x.get("t") or "").split("<<")[0].split(".")[0])
+                      and (x.block == gb.id or x.block in dom0.get(gb.id, ()))]
+            if rej_ and not sends_ and doms_ and last_w:
+                gate = gb
+                break
+
+        def before_gate(f_, e_):
+            if gate is None:
+                return False
+            if f_ is f0:
+                return e_.block == gate.id or e_.block in dom0.get(gate.id, ())
+            sites_ = [s_ for s_ in f0.calls(lambda s_: any(h_.id == f_.id for h_ in prog.resolve_call(s_)))]
+            return bool(sites_) and all(s_.block == gate.id or s_.block in dom0.get(gate.id, ()) for s_ in sites_)
         nw = 0
         for f in reg:
           for e in [x for x in f.events("call") if comp_of(x)]:
@@ -193,6 +225,9 @@ def run(ck):
                                 reach_aw = True
                 okf = rej and not reach_aw
                 detail = "failing arm returns Promise::rejected=%s, reaches asyncWrite=%s" % (rej, reach_aw)
+            elif before_gate(f, e):
+                okf = True
+                detail = "covered by the final gate at line %s: a refused write leaves the buffer full, the write in front of the gate fails too, and the gate rejects without sending" % (gate.term or {}).get("l")
             else:
                 detail = "the write of the %s at line %s is not followed by a stream-state test: an overflow there still sends a truncated message" % (c, e.get("l"))
             ck.ob("C05-R1", "%s/%s@checked" % (name, c), okf, e.loc, f, detail)
